@@ -20,7 +20,8 @@ RULE = (
     "history kept the circular buffer must hold W_(n-j) in slot (history_index - j) mod (p+1), history_index = n mod "
     "(p+1). For gamma = 1 on unichain chains every component of (V_n - V_(n-p))/p must be within epsilon/p of the "
     "optimal gain (average-reward Howard PI, cross-checked by policy enumeration when small). Borderline sweeps "
-    "(measure within rounding of epsilon) end the case. Non-trivial = converged with n > p+1 (buffer wrapped) or a "
+    "(measure within rounding of epsilon) end the case, except in the exact-arithmetic family shared with C08 (dyadic data, "
+    "epsilon equal to a measure), where a tie is decided strictly. Non-trivial = converged with n > p+1 (buffer wrapped) or a "
     "periodic chain judged at gamma = 1; distinct = case digest."
 )
 ASSUMPTIONS = [
@@ -42,8 +43,14 @@ def plan(tier):
 def strategy(tier, shard):
     from hypothesis import strategies as st
 
+    from vf.checks.c08 import exact_tie_cases
+
     @st.composite
     def cases(draw):
+        if draw(st.integers(0, 5)) == 0:
+            # exact-arithmetic family (see C08): epsilon EQUALS the documented measure of some sweep; the solver must not stop there
+            c = draw(exact_tie_cases(kinds=("pvi",)))
+            return dict(spec=c["spec"], cfg=c["cfg"], limit=12, split=None, exact=True)
         mode = draw(st.sampled_from(["free", "hub", "phase", "phase"]))
         gamma = draw(st.sampled_from([1.0, 1.0, 0.5, 0.8, 0.9, 0.95])) if mode != "free" else draw(
             st.sampled_from([1.0, 0.3, 0.5, 0.8, 0.9, 0.95]))
@@ -94,6 +101,13 @@ def judge(case):
     nxt, rew, prb = ref_mdp.arrays(spec)
     rmax = float(np.max(np.abs(rew)))
     # model
+    exact = False
+    if case.get("exact"):
+        from vf.checks.c08 import _exact_ok
+
+        exact = _exact_ok(spec, cfg, limit + 1)
+        if exact:
+            classes.append("exact-arithmetic")
     W = [ref_mdp.initial_values(spec)]
     n_stop = None
     borderline = False
@@ -108,7 +122,9 @@ def judge(case):
             m = ref_mdp.span(sum((W[j] - W[j - 1]) / gamma ** (j - 1) for j in range(n - p + 1, n + 1)))
             sc_now = 1 + rmax + float(np.max(np.abs(W[n])))
             btol = 1e-9 * sc_now + 1e-13 * sc_now * p * gamma ** -n
-        if abs(m - eps) <= btol:
+        if exact and m == eps:
+            classes.append("exact-tie-at-threshold")
+        if not exact and abs(m - eps) <= btol:
             borderline = True
             break
         if m < eps:
